@@ -340,3 +340,27 @@ Proof.
   - split; [assumption|]. apply (Rx h2 s1). apply ext_refl.
 Qed.
 End Reads.
+
+(* ------------------------------------------------------------ the compiler *)
+(* compile.rs: (quote d) is compiled by storing d with Heap::maybe_put_cell and emitting
+   MOV_IMMEDIATE <that value> %acc; on a machine whose heap satisfies the interning
+   invariant the immediate operand reads d back, now and after any later allocation *)
+From MW Require Import Model.VmBase Model.Compile.
+
+Definition quote_of (d : cell) : cell := new_list [CSym QUOTE; d].
+
+Lemma compile_quote_form f l tail d :
+  compile_expression (S f) l tail (quote_of d) =
+  (dom v <- maybe_put_cell_m d; ret (emit (emit (emit_op l OMovImmediate) v) VAcc)).
+Proof. reflexivity. Qed.
+
+Theorem compile_quote_reads (bname : N -> text) f l tail d (s : vm) : heap_datum d -> heap_inv (hp s) ->
+  exists v s', compile_expression (S f) l tail (quote_of d) s
+                 = ROk (emit (emit (emit_op l OMovImmediate) v) VAcc) s' /\
+    heap_inv (hp s') /\ reads bname v d (hp s') (st s').
+Proof.
+  intros Hd HI. rewrite compile_quote_form.
+  destruct (maybe_put_cell_reads bname d Hd (hp s) (st s) HI) as (v & h1 & s1 & E & HI1 & _ & R).
+  exists v, (with_store (with_heap s h1) s1). split; [|split; [exact HI1|exact R]].
+  unfold bindM, maybe_put_cell_m. rewrite E. reflexivity.
+Qed.
